@@ -12,9 +12,9 @@ RULE = ('random directory trees (depth <= 4) mixing x.py / x.pyc / x.pyo with an
         'duplicated, the scratch root itself); files snapshotted (sha1) before and after; most cases call '
         'get_options + remove_stale_bytecode in-process, a subset runs the CLI with --list-tests; '
         'non-trivial = at least one orphan and one non-orphan compiled file, or a pruned directory containing a compiled file')
-TRUSTED_BASE = ['os.walk / os.unlink / the file system are external; symlinked directories are not generated']
+TRUSTED_BASE = ['os.walk / os.unlink / the file system are external; symlinked directories are generated and walked like directories']
 ASSUMPTIONS = ['"searched source directory" = what the cleanup walk visits (test paths minus --ignore_dir and __pycache__), see DESIGN C15',
-               'no symlinks; file names are unique per directory (file system)']
+               'symbolic links to directories only; file names are unique per directory (file system)']
 DEFAULT_IGN = ['.git', '.svn', 'CVS', '{arch}', '.arch-ids', '_darcs']
 
 STEMS = ['a', 'b', 'mod', 'x', 'test_z', 'f1']
